@@ -216,6 +216,7 @@ type HarnessResult struct {
 	Samples      []string              `json:"samples,omitempty"`
 	ForkSites    map[string]int        `json:"fork_sites,omitempty"`
 	SlowSites    map[string]float64    `json:"slow_sites,omitempty"`
+	SlowPath     []int                 `json:"slow_path,omitempty"`
 }
 
 type Hook func(x *Exec)
@@ -276,6 +277,9 @@ func (p *Program) RunHarness(fn *ssa.Function, cfg *Config, workers int) *Harnes
 				res.Steps += x.Steps
 				res.FeasUnknown += x.feasUnknown
 				rec := PathRecord{Status: exit.Status, Msg: exit.Msg, Path: x.tracePath()}
+				if exit.Status == "assume" && strings.Contains(exit.Msg, "stated loop bound") && len(res.Notes) < 5 {
+					res.Notes = append(res.Notes, exit.Msg)
+				}
 				switch exit.Status {
 				case "unsupported", "unwind", "engine-error":
 					if len(res.Inconclusive) < 50 {
@@ -321,6 +325,9 @@ func (p *Program) RunHarness(fn *ssa.Function, cfg *Config, workers int) *Harnes
 				}
 				for k, v := range x.SlowSites {
 					res.SlowSites[k] += v
+				}
+				if res.SlowPath == nil && x.SlowPath != nil {
+					res.SlowPath = x.SlowPath
 				}
 				for _, e := range x.Effects {
 					if e.Kind == "nondeterminism" || e.Kind == "map-range" {
